@@ -1,21 +1,32 @@
-"""C19 -- part-name arithmetic (PackURI). See DESIGN.md section 6, C19."""
+"""C19 -- part-name arithmetic (PackURI). See DESIGN.md section 6, C19.
+
+Real code executed: pptx.opc.packuri.PackURI (all of it) with posixpath's pure-Python functions.
+Stubs: posixpath.normpath = CPython's pure-Python body (the C accelerator realizes);
+       str.__new__(PackURI, sym) returns a symbolic str carrying PackURI's own methods.
+"""
 from kit.env import *  # noqa
 
 setup(length_stub=False)
 
-import posixpath  # noqa: E402
-
 from pptx.opc.packuri import PackURI  # noqa: E402
 
 MAXLEN = 12 if THOROUGH else 8
+MAXSEG = 2
+DEPTHS = (1, 2, 3, 4) if THOROUGH else (1, 2, 3)
+ENC = ["pptx.opc.packuri:PackURI." + n for n in (
+    "__new__", "from_rel_ref", "baseURI", "ext", "filename", "idx", "membername", "relative_ref", "rels_uri")]
+NAME_BOUND = "every str p, 2 <= len(p) <= %d, p[0]=='/', no '//', no trailing '/'" % MAXLEN
 
 
-def _valid_name(p):
-    return len(p) >= 2 and p[0] == "/" and p[-1] != "/" and "//" not in p
+def _last_seg(p):
+    i = len(p) - 1
+    while i >= 0 and p[i] != "/":
+        i -= 1
+    return p[: i], p[i + 1 :]
 
 
-@cond(expect="confirm", timeout=90, encodes=["pptx.opc.packuri:PackURI.baseURI", "pptx.opc.packuri:PackURI.filename"],
-      bound="all strings p with 2 <= len(p) <= MAXLEN (8 quick / 12 thorough), leading '/', no '//', no trailing '/'")
+# ---------------------------------------------------------------------------- accessors
+@cond(timeout=120, encodes=ENC, bound=NAME_BOUND)
 def split_recompose(p: str) -> bool:
     """
     pre: 2 <= len(p) <= MAXLEN
@@ -24,9 +35,10 @@ def split_recompose(p: str) -> bool:
     pre: '//' not in p
     post: _
     """
-    b = PackURI.baseURI.fget(p)
-    f = PackURI.filename.fget(p)
-    return (b if b == "/" else b + "/") + f == p and "/" not in f and (b == "/" or not b.endswith("/"))
+    u = PackURI(p)
+    b, f = u.baseURI, u.filename
+    d, leaf = _last_seg(p)
+    return f == leaf and b == (d or "/") and u.membername == p[1:] and u == p
 
 
 @cond(expect="refute", timeout=60, twin_of="split_recompose")
@@ -38,6 +50,297 @@ def split_recompose_twin(p: str) -> bool:
     pre: '//' not in p
     post: _
     """
-    b = PackURI.baseURI.fget(p)
-    f = PackURI.filename.fget(p)
-    return not (b == "/a/b" and f == "c.x")
+    u = PackURI(p)
+    return not (u.baseURI == "/a/b" and u.filename == "c.x")
+
+
+@cond(timeout=120, encodes=ENC, bound=NAME_BOUND + "; last segment does not start with '.' (posixpath.splitext "
+      "treats leading dots as part of the stem; OPC part names never start a segment with '.', outside the claim)")
+def ext_is_text_after_last_dot(p: str) -> bool:
+    """
+    pre: 2 <= len(p) <= MAXLEN
+    pre: p[0] == '/'
+    pre: p[-1] != '/'
+    pre: '//' not in p
+    post: _
+    """
+    d, leaf = _last_seg(p)
+    if leaf[0] == ".":
+        return True
+    e = PackURI(p).ext
+    i = len(leaf) - 1
+    while i >= 0 and leaf[i] != ".":
+        i -= 1
+    want = leaf[i + 1 :] if i >= 0 else ""
+    return e == want
+
+
+@cond(expect="refute", timeout=60, twin_of="ext_is_text_after_last_dot")
+def ext_twin(p: str) -> bool:
+    """
+    pre: 2 <= len(p) <= MAXLEN
+    pre: p[0] == '/'
+    pre: p[-1] != '/'
+    pre: '//' not in p
+    post: _
+    """
+    return PackURI(p).ext != "b.c"[2:] + "d" or "." not in p[:-3]
+
+
+@cond(timeout=120, encodes=ENC, bound=NAME_BOUND + " and the pseudo-name '/'")
+def rels_uri_shape(p: str) -> bool:
+    """
+    pre: 1 <= len(p) <= MAXLEN
+    pre: p[0] == '/'
+    pre: len(p) == 1 or p[-1] != '/'
+    pre: '//' not in p
+    post: _
+    """
+    r = PackURI(p).rels_uri
+    d, leaf = _last_seg(p)
+    return r == d + "/_rels/" + leaf + ".rels"
+
+
+@cond(expect="refute", timeout=60, twin_of="rels_uri_shape")
+def rels_uri_twin(p: str) -> bool:
+    """
+    pre: 1 <= len(p) <= MAXLEN
+    pre: p[0] == '/'
+    pre: len(p) == 1 or p[-1] != '/'
+    pre: '//' not in p
+    post: _
+    """
+    return PackURI(p).rels_uri != "/a/_rels/b.c.rels"
+
+
+@cond(timeout=60, encodes=ENC, bound="every str of length 1..6 whose first character is not '/'; and every str "
+      "of length 1..6 starting with '/' is accepted")
+def leading_slash_required(s: str) -> bool:
+    """
+    pre: 1 <= len(s) <= 6
+    post: _
+    """
+    try:
+        u = PackURI(s)
+    except ValueError:
+        return s[0] != "/"
+    return s[0] == "/" and u == s
+
+
+@cond(expect="refute", timeout=60, twin_of="leading_slash_required")
+def leading_slash_twin(s: str) -> bool:
+    """
+    pre: 1 <= len(s) <= 6
+    post: _
+    """
+    try:
+        PackURI(s)
+    except ValueError:
+        return s != "ppt/x"
+    return True
+
+
+LETTERS = "abcdefghijklmnopqrstuvwxyzABCDEFGHIJKLMNOPQRSTUVWXYZ"
+
+
+@cond(timeout=240, encodes=ENC,
+      bound="names '/d/' + L + D + '.' + E with L: 1..3 ASCII letters, D: 0..3 decimal digits, E: 0..3 non-'/' non-'.' chars "
+            "(without E no dot is written); idx must be int(D) or None when D is empty")
+def idx_is_trailing_digits(L: str, D: str, E: str) -> bool:
+    """
+    pre: 1 <= len(L) <= 3 and len(D) <= 3 and len(E) <= 3
+    pre: all(c in LETTERS for c in L)
+    pre: all(c in '0123456789' for c in D)
+    pre: all(c != '/' and c != '.' for c in E)
+    post: _
+    """
+    name = "/d/" + L + D + (("." + E) if E else "")
+    got = PackURI(name).idx
+    if len(D) == 0:
+        return got is None
+    want = 0
+    for c in D:
+        want = want * 10 + (ord(c) - 48)
+    return got == want
+
+
+@cond(expect="refute", timeout=120, twin_of="idx_is_trailing_digits")
+def idx_twin(L: str, D: str, E: str) -> bool:
+    """
+    pre: 1 <= len(L) <= 3 and len(D) <= 3 and len(E) <= 3
+    pre: all(c in LETTERS for c in L)
+    pre: all(c in '0123456789' for c in D)
+    pre: all(c != '/' and c != '.' for c in E)
+    post: _
+    """
+    name = "/d/" + L + D + (("." + E) if E else "")
+    return PackURI(name).idx != 21
+
+
+# ---------------------------------------------------------------------------- composition
+def _seg_ok(s):
+    return 1 <= len(s) <= MAXSEG and "/" not in s and s != "." and s != ".."
+
+
+def _seg1_ok(s):
+    return len(s) == 1 and s != "/" and s != "."
+
+
+def _rt(ps, qs):
+    P = "/" + "/".join(ps)
+    Q = "/" + "/".join(qs)
+    base = PackURI(P).baseURI
+    ref = PackURI(Q).relative_ref(base)
+    back = PackURI.from_rel_ref(base, ref)
+    return back == Q
+
+
+_RT = '''
+@cond(timeout={to}, encodes=ENC, tiers={tiers!r},
+      bound="P of depth {dp}, Q of depth {dq}; every segment any str of length {lens} without '/', not '.' or '..'")
+def roundtrip_{dp}_{dq}{sfx}({params}) -> bool:
+    """
+    pre: {pre}
+    post: _
+    """
+    return _rt([{pa}], [{qa}])
+'''
+# segment length 1..2: depth <= 2 in quick (measured 1-80 s each), depth 3 in thorough only (3_1: 177 s; others > 300 s)
+# segment length exactly 1: depth 3 in quick, depth 4 in thorough
+for _dp in (1, 2, 3, 4):
+    for _dq in (1, 2, 3, 4):
+        _pa = ["p%d" % i for i in range(_dp)]
+        _qa = ["q%d" % i for i in range(_dq)]
+        _d = max(_dp, _dq)
+        _params = ", ".join(a + ": str" for a in _pa + _qa)
+        if _d <= 3:
+            gen(_RT.format(dp=_dp, dq=_dq, sfx="", params=_params, lens="1..2",
+                           pre=" and ".join("_seg_ok(%s)" % a for a in _pa + _qa), pa=", ".join(_pa), qa=", ".join(_qa),
+                           to=300 if _d <= 2 else 2400, tiers=("quick", "thorough") if _d <= 2 else ("thorough",)), globals())
+        if _d >= 3:
+            gen(_RT.format(dp=_dp, dq=_dq, sfx="_len1", params=_params, lens="exactly 1",
+                           pre=" and ".join("_seg1_ok(%s)" % a for a in _pa + _qa), pa=", ".join(_pa), qa=", ".join(_qa),
+                           to=300 if _d == 3 else 1200, tiers=("quick", "thorough") if _d == 3 else ("thorough",)), globals())
+
+
+@cond(expect="refute", timeout=120, twin_of="roundtrip_2_2")
+def roundtrip_twin(p0: str, p1: str, q0: str, q1: str) -> bool:
+    """
+    pre: _seg_ok(p0) and _seg_ok(p1) and _seg_ok(q0) and _seg_ok(q1)
+    post: _
+    """
+    P = "/" + p0 + "/" + p1
+    Q = "/" + q0 + "/" + q1
+    base = PackURI(P).baseURI
+    ref = PackURI(Q).relative_ref(base)
+    return ref != "../b/c"
+
+
+# ---------------------------------------------------------------------------- RFC 3986 resolution
+def _remove_dot_segments(path):
+    """RFC 3986 section 5.2.4, written directly from the RFC (independent reference)."""
+    out = []
+    inp = path
+    while inp:
+        if inp.startswith("../"):
+            inp = inp[3:]
+        elif inp.startswith("./"):
+            inp = inp[2:]
+        elif inp.startswith("/./"):
+            inp = inp[2:]
+        elif inp == "/.":
+            inp = "/"
+        elif inp.startswith("/../"):
+            inp = inp[3:]
+            if out:
+                out.pop()
+        elif inp == "/..":
+            inp = "/"
+            if out:
+                out.pop()
+        elif inp == "." or inp == "..":
+            inp = ""
+        else:
+            j = inp.find("/", 1)
+            if j < 0:
+                out.append(inp)
+                inp = ""
+            else:
+                out.append(inp[:j])
+                inp = inp[j:]
+    return "".join(out)
+
+
+def _rfc_resolve(base_dir, ref):
+    if ref.startswith("/"):
+        merged = ref
+    else:
+        merged = (base_dir if base_dir.endswith("/") else base_dir + "/") + ref
+    return _remove_dot_segments(merged)
+
+
+REF_SEGS = [".", "..", "a", "b1", "c.x"]
+BASES = ["/", "/a", "/a/b1"]
+
+
+@cond(timeout=300, encodes=ENC,
+      bound="base directory in ['/', '/a', '/a/b1']; reference = optional leading '/', then 1..3 segments each chosen from "
+            "['.', '..', 'a', 'b1', 'c.x'], last one not '.' or '..' (a reference names a part); compared with RFC 3986 "
+            "5.2.4 remove_dot_segments (930 index combinations, explored exhaustively)")
+def rfc3986_resolution(nb: int, absolute: bool, nr: int, r0: int, r1: int, r2: int) -> bool:
+    """
+    pre: 0 <= nb <= 2 and 1 <= nr <= 3
+    pre: 0 <= r0 < 5 and 0 <= r1 < 5 and 0 <= r2 < 5
+    post: _
+    """
+    segs = [REF_SEGS[r0], REF_SEGS[r1], REF_SEGS[r2]][:nr]
+    if segs[-1] in (".", ".."):
+        return True
+    base = BASES[nb]
+    ref = ("/" if absolute else "") + "/".join(segs)
+    got = PackURI.from_rel_ref(base, ref)
+    return got == _rfc_resolve(base, ref)
+
+
+@cond(expect="refute", timeout=120, twin_of="rfc3986_resolution")
+def rfc3986_twin(nb: int, absolute: bool, nr: int, r0: int, r1: int, r2: int) -> bool:
+    """
+    pre: 0 <= nb <= 2 and 1 <= nr <= 3
+    pre: 0 <= r0 < 5 and 0 <= r1 < 5 and 0 <= r2 < 5
+    post: _
+    """
+    segs = [REF_SEGS[r0], REF_SEGS[r1], REF_SEGS[r2]][:nr]
+    base = BASES[nb]
+    ref = ("/" if absolute else "") + "/".join(segs)
+    return not (base == "/a/b1" and ref == "../c.x")
+
+
+_SYM = '''
+@cond(timeout=300, encodes=ENC,
+      bound="base '/'+s0+'/'+s1, reference '../'*{k} + t0{plus}; s*, t* symbolic strs of length 1..2 without '/', not "
+            "'.' or '..'; expected value: '..' pops one base segment, never above the root (RFC 3986 5.2.4)")
+def rfc3986_symbolic_k{k}_{n}(s0: str, s1: str, t0: str{t1p}) -> bool:
+    """
+    pre: _seg_ok(s0) and _seg_ok(s1) and _seg_ok(t0){t1ok}
+    post: _
+    """
+    base = "/" + s0 + "/" + s1
+    ref = "../" * {k} + t0{t1cat}
+    keep = [s0, s1][: max(0, 2 - {k})]
+    want = "/" + "/".join(keep + [t0{t1lst}])
+    return PackURI.from_rel_ref(base, ref) == want
+'''
+for _k in (0, 1, 2, 3):
+    gen(_SYM.format(k=_k, n=1, plus="", t1p="", t1ok="", t1cat="", t1lst=""), globals())
+    gen(_SYM.format(k=_k, n=2, plus=" + '/' + t1", t1p=", t1: str", t1ok=" and _seg_ok(t1)", t1cat=' + "/" + t1', t1lst=", t1"), globals())
+
+
+@cond(timeout=300, encodes=ENC,
+      bound="root-absolute reference '/'+t0[+'/'+t1] against base '/'+s0: result is the reference itself")
+def rfc3986_absolute_symbolic(s0: str, t0: str, t1: str, two: bool) -> bool:
+    """
+    pre: _seg_ok(s0) and _seg_ok(t0) and _seg_ok(t1)
+    post: _
+    """
+    ref = "/" + t0 + (("/" + t1) if two else "")
+    return PackURI.from_rel_ref("/" + s0, ref) == ref
